@@ -54,10 +54,19 @@ class Term:
             and veq(self.kwargs, other.kwargs)
         )
 
+    _depth = threading.local()
+
     def __repr__(self):
-        inner = ", ".join(
-            [*(repr(a) for a in self.args), *(f"{k}={v!r}" for k, v in self.kwargs)]
-        )
+        d = getattr(Term._depth, "n", 0)
+        if d >= 4:  # results are DAGs: an unbounded repr is exponential in the depth
+            return f"t{self.idx}(...)"
+        Term._depth.n = d + 1
+        try:
+            inner = ", ".join(
+                [*(repr(a) for a in self.args), *(f"{k}={v!r}" for k, v in self.kwargs)]
+            )
+        finally:
+            Term._depth.n = d
         return f"t{self.idx}({inner})"
 
 
@@ -123,35 +132,56 @@ def _safe_hash(v):
         return 0
 
 
+_TERM_EQ = {}  # (id, id) -> (term, term, diff): comparisons of shared sub-results across calls (sets / dict keys)
+
+
+def reset_term_cache():
+    _TERM_EQ.clear()
+
+
 def veq(a, b):
     """Type-exact structural equality over harness values (None if equal is not needed: bool)."""
     return vdiff(a, b) is None
 
 
-def vdiff(a, b, path="$"):
-    """None if equal (exact types at every level), else a short reason."""
+def vdiff(a, b, path="$", memo=None):
+    """None if equal (exact types at every level), else a short reason.  Results are shared values (a DAG, not a
+    tree): pairs of Terms already compared in this call are not compared again."""
     if a is b:
         return None
     ta, tb = type(a), type(b)
     if ta is not tb:
         return f"type {ta.__name__} vs {tb.__name__} at {path}"
+    if memo is None:
+        memo = {}
     if ta is Term:
         if a.idx != b.idx:
             return f"term t{a.idx} vs t{b.idx} at {path}"
-        return vdiff(a.args, b.args, f"{path}.t{a.idx}.args") or vdiff(
-            a.kwargs, b.kwargs, f"{path}.t{a.idx}.kwargs"
+        key = (id(a), id(b))
+        if key in memo:
+            return memo[key]
+        hit = _TERM_EQ.get(key)
+        if hit is not None and hit[0] is a and hit[1] is b:
+            return hit[2]
+        r = vdiff(a.args, b.args, f"{path}.t{a.idx}.args", memo) or vdiff(
+            a.kwargs, b.kwargs, f"{path}.t{a.idx}.kwargs", memo
         )
+        memo[key] = r
+        if len(_TERM_EQ) > 200000:
+            _TERM_EQ.clear()
+        _TERM_EQ[key] = (a, b, r)  # Terms are immutable; the entry keeps both alive, so the ids stay valid
+        return r
     if ta in (R, W):
-        return vdiff(a.v, b.v, f"{path}.{ta.__name__}")
+        return vdiff(a.v, b.v, f"{path}.{ta.__name__}", memo)
     if ta is SideRead:
         if a.k != b.k:
             return f"side read of {a.k} vs {b.k} at {path}"
-        return vdiff(a.v, b.v, f"{path}.SideRead({a.k})")
+        return vdiff(a.v, b.v, f"{path}.SideRead({a.k})", memo)
     if ta in (list, tuple):
         if len(a) != len(b):
             return f"length {len(a)} vs {len(b)} at {path}"
         for i, (x, y) in enumerate(zip(a, b)):
-            r = vdiff(x, y, f"{path}[{i}]")
+            r = vdiff(x, y, f"{path}[{i}]", memo)
             if r:
                 return r
         return None
@@ -159,7 +189,7 @@ def vdiff(a, b, path="$"):
         if len(a) != len(b):
             return f"dict size {len(a)} vs {len(b)} at {path}"
         for (ka, va), (kb, vb) in zip(a.items(), b.items()):
-            r = vdiff(ka, kb, f"{path}.key") or vdiff(va, vb, f"{path}[{ka!r}]")
+            r = vdiff(ka, kb, f"{path}.key", memo) or vdiff(va, vb, f"{path}[{ka!r}]", memo)
             if r:
                 return r
         return None
@@ -170,7 +200,7 @@ def vdiff(a, b, path="$"):
             ys = [y for y in b if y == x]
             if not ys:
                 return f"set member {x!r} missing at {path}"
-            r = vdiff(x, ys[0], path + "{}")
+            r = vdiff(x, ys[0], path + "{}", memo)
             if r:
                 return r
         return None
@@ -300,6 +330,7 @@ class Gen:
         self.lits = lits  # weight of literal nodes / literal chains in add_any
         self.lit_refs = []
         self.cur_slots = set()
+        self.frozen_slots = set()
 
     # -- argument structures
     def ref(self, hashable=False):
@@ -362,9 +393,19 @@ class Gen:
         # one python object per slot; a slot is used at most once per API call (all arguments of one
         # plan.call are evaluated before uberjob sees any of them)
         slot = "%s%d" % (tag, self.draw(st.integers(0, 1)))
-        if slot not in self.cur_slots:
-            self.cur_slots.add(slot)
-            out["sh"] = slot
+        self._use_slot(out, slot)
+
+    def _use_slot(self, out, slot):
+        # A container passed while it holds no node becomes the VALUE of a literal (captured by reference); if
+        # it later came to hold nodes that depend on that literal, the value would contain itself.  Such
+        # self-containing literal values are outside every statement: once a slot was used node-free it stays
+        # node-free.
+        if slot in self.cur_slots or (slot in self.frozen_slots and has_ref(out)):
+            return
+        self.cur_slots.add(slot)
+        out["sh"] = slot
+        if not has_ref(out):
+            self.frozen_slots.add(slot)
 
     def scope(self):
         return self.draw(st.lists(SCOPE_VALUES, max_size=2))
@@ -514,7 +555,7 @@ class Gen:
         items = []
         last = None
         for _ in range(d(st.integers(2, 3))):
-            self.cur_slots = {slot}
+            self.cur_slots = {slot}  # (nested arguments must not use the accumulator's own slot)
             items = [x for x in items if not _uses_slots(x)]  # nested shared objects: fresh per call
             for _ in range(d(st.integers(0, 2))):
                 if tag == "D":
@@ -527,7 +568,9 @@ class Gen:
                         items.append(x)
             if d(st.integers(0, 5)) == 0 and items:
                 items.pop(d(st.integers(0, len(items) - 1)))
-            a = {tag: [list(p) for p in items] if tag == "D" else list(items), "sh": slot}
+            a = {tag: [list(p) for p in items] if tag == "D" else list(items)}
+            self.cur_slots = set()
+            self._use_slot(a, slot)
             pos = d(st.integers(0, 1))
             args = [self.arg()] * pos + [a]
             node = {"k": "call", "args": args, "kwargs": [], "deps": [], "scope": list(scope) if d(st.integers(0, 4)) else self.scope(),
